@@ -350,6 +350,21 @@ def b_round(ip, args, kw, ctx):
     raise _uns("round with ndigits")
 
 
+def b_getattr(ip, args, kw, ctx):
+    from .interp import PyExc
+    if len(args) not in (2, 3) or not isinstance(args[1], str):
+        raise _uns("getattr with a computed attribute name")
+    try:
+        v = ip.getattr(args[0], args[1], ctx)
+    except PyExc as e:
+        if _exc_isinst(e.exc.cls, "AttributeError") and len(args) == 3:
+            return args[2]
+        raise
+    if isinstance(v, _I().MethodRef) and len(args) == 3:
+        raise _uns("getattr with a default on a builtin value")
+    return v
+
+
 def b_isinstance(ip, args, kw, ctx):
     v, c = args
     cs = c if isinstance(c, tuple) else (c,)
@@ -1198,7 +1213,7 @@ def install(ip):
     b = ip.builtins
     for name, fn, pt in [
         ("len", b_len, None), ("int", b_int, int), ("float", b_float, float), ("str", b_str, str),
-        ("divmod", b_divmod, None), ("round", b_round, None), ("isinstance", b_isinstance, None), ("issubclass", b_issubclass, None),
+        ("divmod", b_divmod, None), ("round", b_round, None), ("isinstance", b_isinstance, None), ("getattr", b_getattr, None), ("issubclass", b_issubclass, None),
         ("type", b_type, type), ("hasattr", b_hasattr, None), ("map", b_map, None), ("filter", b_filter, None),
         ("list", b_list, list), ("tuple", b_tuple, tuple), ("dict", b_dict, dict), ("set", b_set, set),
         ("sum", b_sum, None), ("sorted", b_sorted, None), ("min", b_min, None), ("max", b_max, None),
